@@ -52,6 +52,7 @@ LEVEL_TEXT = (
     "the bound it is sampling."
 )
 
+ALPH2 = ["a", "_", ":", "1", "\u0131", "\u017f", "\u212a", "\u0130", "\u0663", "\uff12", "\uff21", " ", "\u00a0", "\x1c", "\x85"]
 WS = [" ", " ", " ", "\x1c", "\x85", "\r", "\x0b", "\x0c", "　"]
 OTHER = ["ß", "日", "٣", "İ", "́", "😀", "A", "b", "9", "%", "?", "=", "+", "\\", "'", "\"", "<", ">", "{", "|", "\x00"]
 
